@@ -15,11 +15,22 @@ from . import common as C
 from . import classes as K
 
 
-def run_graphs(work, graphs, names, stats, args=("t.rb",)):
-    jobs, meta = [], []
+def choose_places(work, stats, graphs, rng):
+    """one placement per graph (from TLC's MCPlacements), preferring those where an edge crosses namespaces"""
+    pls = K.placements(work, stats)
+    out = []
     for gr in graphs:
-        dl, info = K.render(gr, names)
-        ql, exp = K.query_lines(gr, names)
+        cross = [p for p in pls if K.crosses(gr, p)]
+        out.append(rng.choice(cross or pls))
+    return out
+
+
+def run_graphs(work, graphs, names, stats, args=("t.rb",), places=None):
+    jobs, meta = [], []
+    for gi, gr in enumerate(graphs):
+        pl = places[gi] if places else None
+        dl, info = K.render(gr, names, place=pl)
+        ql, exp = K.query_lines(gr, names, place=pl)
         jobs.append({"files": {"t.rb": "\n".join(dl + ql) + "\n"}, "args": list(args)})
         meta.append((len(dl), exp))
     wr = C.Runner(work, "worker")
@@ -68,11 +79,15 @@ def run(tier, work):
     if tier == "quick":
         graphs = rng.sample(graphs, 1500)
     checked = 0
-    for names, collide in ((K.PLAIN, False), (K.COLLIDE, True)):
+    for names, collide, placed in ((K.PLAIN, False, False), (K.COLLIDE, True, False), (K.PLAIN, False, True)):
         sub = graphs if not collide else graphs[:len(graphs) // 3]
-        for gr, (job, obs, failure) in zip(sub, run_graphs(work, sub, names, stats)):
+        places = None
+        if placed:
+            sub = graphs[:len(graphs) // 2]
+            places = choose_places(work, stats, sub, rng)
+        for gi, (gr, (job, obs, failure)) in enumerate(zip(sub, run_graphs(work, sub, names, stats, places=places))):
             if obs is None:
-                key = "%scrash-or-hang:%s" % ("collide-" if collide else "", failure)
+                key = "%scrash-or-hang:%s" % ("collide-" if collide else "placed-" if placed else "", failure)
                 if v.seen(key):
                     v.again(key)
                     continue
@@ -87,6 +102,8 @@ def run(tier, work):
                 if K.agrees(e[4], o):
                     continue
                 key = finding_key(gr, e, o, collide)
+                if placed:
+                    key = "placed-" + key
                 if v.seen(key):
                     v.again(key)
                     continue
@@ -95,7 +112,7 @@ def run(tier, work):
                 for kind, f, row, msg in C.parse_lines(rr.get("out") or ""):
                     if kind == "d":
                         diag[row].append(msg)
-                base = len(K.render(gr, names)[0])
+                base = len(K.render(gr, names, place=places[gi] if places else None)[0])
                 o2 = K.observe(diag.get(base + e[0] + 1, []))
                 if K.agrees(e[4], o2):
                     v.count("not_reproduced_blackbox")
